@@ -291,11 +291,17 @@ class _FPCore2FPy:
                 exprs = [self._visit(e, ctx) for e in e.children]
                 return Compare(ops, exprs, None)
             case fpc.NEQ():
-                # TODO: need to check if semantics are the same
+                # `(!= a b c ...)` is true iff the operands are pairwise
+                # distinct; a chain `a != b != c` compares only neighbours
                 assert len(e.children) >= 2, "not enough children"
-                ops = [CompareOp.NE for _ in e.children[1:]]
                 exprs = [self._visit(e, ctx) for e in e.children]
-                return Compare(ops, exprs, None)
+                if len(exprs) == 2:
+                    return Compare([CompareOp.NE], exprs, None)
+                pairs: list[Expr] = [
+                    Compare([CompareOp.NE], [exprs[i], exprs[j]], None)
+                    for i in range(len(exprs)) for j in range(i + 1, len(exprs))
+                ]
+                return And(pairs, None)
             case fpc.Size():
                 # BUG: titanfp package says `fpc.Size` is n-ary
                 if len(e.children) != 2:
